@@ -140,8 +140,20 @@ def run_cases(tag, header, cases, shard=400, timeout=900):
 
     def one(kp):
         k, path = kp
-        p = subprocess.run(['timeout', str(timeout), 'coqc', '-R', '.', 'PM', os.path.relpath(path, COQ)], cwd=COQ, stdout=subprocess.PIPE, stderr=subprocess.STDOUT, text=True)
+        p = subprocess.run(['timeout', str(timeout), 'coqc', '-noglob', '-R', '.', 'PM', os.path.relpath(path, COQ)], cwd=COQ, stdout=subprocess.PIPE, stderr=subprocess.STDOUT, text=True)
         m = re.search(r'=\s*\((\d+)(?:%nat)?,\s*\[(.*?)\]\)', p.stdout, re.S)
+        failed = p.returncode != 0 or not m or bool(re.findall(r'\d+', m.group(2)))
+        # the case files are scratch: compiled output is removed straight away, the source is kept only when something in it failed
+        stem = path[:-2]
+        for ext in ('.vo', '.vok', '.vos', '.glob') + (() if failed else ('.v',)):
+            try:
+                os.remove(stem + ext)
+            except OSError:
+                pass
+        try:
+            os.remove(os.path.join(os.path.dirname(path), '.' + os.path.basename(stem) + '.aux'))
+        except OSError:
+            pass
         if p.returncode != 0 or not m:
             return k, None, p.stdout[-1500:]
         return k, (int(m.group(1)), [int(x) for x in re.findall(r'\d+', m.group(2))]), ''
